@@ -67,10 +67,14 @@ def gen_plan(seed, tier):
   if cls == "SCML_Supervised":
     p["k_genuine"] = r.randint(1, 3)
     p["k_impostor"] = r.randint(1, 4)
+  int_data = r.random() < 0.2
+  if int_data:            # integer-valued points handed over with an integer dtype
+    desc["kind"] = "grid"
+    desc["grid"] = 6
   rs = dict(kind=r.choice(["int", "sim", "scripted", "scripted"]), seed=r.randrange(2**31 - 1))
   if rs["kind"] == "scripted":
     rs["script"] = r.choice(["const", "cycle", "few", "rowconst"])
-  return dict(run_seed=seed, cls=cls, dataset=desc, params=p, rs=rs)
+  return dict(run_seed=seed, cls=cls, dataset=desc, params=p, rs=rs, int_data=int_data)
 
 
 def run_plan(plan):
@@ -98,7 +102,8 @@ def run_plan(plan):
     rs = world.ScriptedRandomState(rsd["seed"], rsd["script"])
     rs.keep_values = True
   p["random_state"] = rs
-  shape = [cls, "array" if isinstance(basis_param, dict) else basis_param, rsd["kind"],
+  shape = [cls, "array" if isinstance(basis_param, dict) else basis_param,
+           "int" if plan.get("int_data") else "float", rsd["kind"],
            rsd.get("script", "-"), repr(sorted((k, v) for k, v in plan["params"].items()
                                                if k not in ("basis",)))]
   try:
@@ -107,11 +112,11 @@ def run_plan(plan):
       T = D.S[D.triplets_idx]
       if len(T) < d:
         raise Inconclusive("fewer_triplets_than_features")
-      args = (T.copy(),)
+      args = (T.astype(np.int64) if plan.get("int_data") else T.copy(),)
     else:
-      args = (D.X.copy(), D.y.copy())
-      with world.observed():
-        Tidx = Constraints(D.y).generate_knntriplets(D.X, p["k_genuine"], p["k_impostor"])
+      args = (D.X.astype(np.int64) if plan.get("int_data") else D.X.copy(), D.y.copy())
+      with world.observed():   # same array (and dtype) as the estimator sees: neighbour ties
+        Tidx = Constraints(D.y).generate_knntriplets(args[0].copy(), p["k_genuine"], p["k_impostor"])
       T = D.X[Tidx]
     basis_dg = digest(p["basis"]) if isinstance(p["basis"], np.ndarray) else None
     with world.observed() as wl, BasisObserver() as bo, \
